@@ -20,7 +20,7 @@ inline std::vector<Shape> const& shapes() {
 		{{3, 4}, true}, {{4, 3}, true}, {{2, 6}, true}, {{6, 2}, true}, {{4, 4}, true},
 		{{2, 3, 2}, false}, {{1, 2, 3}, false}, {{3, 1, 2}, false}, {{2, 0, 2}, false},
 		{{2, 2, 3}, true}, {{2, 3, 4}, true}, {{4, 2, 2}, true}, {{3, 3, 3}, true},
-		{{2, 1, 2, 3}, false}, {{2, 2, 2, 2}, true}, {{1, 2, 3, 2}, true}, {{3, 2, 1, 2}, true},
+		{{2, 1, 2, 3}, false}, {{1, 2, 3, 2}, false}, {{1, 2, 2, 2}, false}, {{2, 2, 2, 2}, true}, {{3, 2, 1, 2}, true},
 	};
 	return v;
 }
